@@ -152,6 +152,23 @@ def describe(mod: Any, fname: str, fn: Any) -> dict[str, Any]:
                     best = (score, attr, eq)
         if best is not None:
             d["equation"] = (best[1], best[2])
+    # matrix law: Eq(Matrix of unknown symbols, Matrix of expressions in the parameters' symbols) and a function that returns
+    # the entries (nested tuple / matrix, row by row)
+    d["matrix_equation"] = None
+    if ok and params and all(p["sym"] is not None for p in params):
+        psyms = {p["sym"] for p in params}
+        for attr in sorted(a for a in vars(mod) if not a.startswith("_")):
+            eq = getattr(mod, attr)
+            if not isinstance(eq, sympy.Equality):
+                continue
+            lhs, rhs = eq.lhs, eq.rhs
+            if not (isinstance(lhs, sympy.MatrixBase) and isinstance(rhs, sympy.MatrixBase) and lhs.shape == rhs.shape):
+                continue
+            entries = list(lhs)
+            if all(isinstance(e, sympy.Symbol) for e in entries) and not (set(entries) & psyms) and \
+                    {x for x in rhs.free_symbols if not isinstance(x, sympy.physics.units.Quantity)} <= psyms:
+                d["matrix_equation"] = (attr, eq)
+                break
     return d
 
 
@@ -456,6 +473,52 @@ def _call(fn: Any, names: list[str], args: list[Any], keyword: bool) -> tuple[st
         return "raised", exc
 
 
+def _judge_matrix(desc: dict[str, Any], site: str, res: Any, args: list[Any], si: list[Any],
+    info: dict[str, Any]) -> tuple[list[tuple[str, str]], dict[str, Any]]:
+    """Entries returned by the function against the right-hand matrix of the published matrix equation (SI, complex)."""
+    import sympy
+    from sympy.physics.units import Quantity as SymQuantity
+
+    def flat(x: Any) -> list[Any]:
+        if isinstance(x, sympy.MatrixBase):
+            return list(x)
+        if isinstance(x, (list, tuple)):
+            return [y for e in x for y in flat(e)]
+        return [x]
+
+    attr, eq = desc["matrix_equation"]
+    got = flat(res)
+    want = list(eq.rhs)
+    if len(got) != len(want):
+        info["status"] = "non-scalar-result"
+        return [], info
+    sub = {p["sym"]: v for p, v in zip(desc["params"], si)}
+    qsub = {q: si_value(q) for q in eq.rhs.atoms(SymQuantity)}
+    try:
+        wv = [sympy.N(sympy.sympify(w).xreplace(sub).xreplace(qsub), 30) for w in want]
+        gv = [sympy.N(si_value(g), 30) for g in got]
+    except Exception:  # pylint: disable=broad-except
+        info["status"] = "unreadable-result"
+        return [], info
+    if not all(v.is_number and v.is_finite for v in wv + gv):
+        info["status"] = "non-finite-result"
+        return [], info
+    info["tier"] = "residual-matrix"
+    info["result_zero"] = False
+    scale = max(abs(v) for v in wv + gv)
+    out = []
+    for i, (g, w) in enumerate(zip(gv, wv)):
+        # entries of one matrix differ in dimension: each entry is judged against its own magnitude, with the rounding
+        # noise of a double-precision evaluation (1e-9 relative) and nothing else
+        if abs(g - w) > sympy.Float("1e-9") * (abs(g) + abs(w)) + sympy.Float("1e-300"):
+            if abs(g - w) <= sympy.Float("1e-13") * scale and max(abs(g), abs(w)) < sympy.Float("1e-12") * scale:
+                continue  # an entry that is zero up to rounding beside entries of order `scale`
+            out.append((f"residual:{site}", f"{site} returned entry {i} = {_fmt(g)} for {_show(args)}, but the published matrix "
+                f"equation '{attr}' gives {_fmt(w)} there"))
+            break
+    return out, info
+
+
 def _infinite_mismatch(eq: Any, sub: dict[Any, Any], qsub: dict[Any, Any]) -> str | None:
     """A side of the published equation that evaluates to +oo or -oo (a piecewise law on its infinite branch) is compared
     as an extended real number: the other side must be the same infinity.  zoo/nan sides (singular points) are not judged."""
@@ -500,6 +563,8 @@ def _judge(desc: dict[str, Any], recipe: list[Any], profile: str = "macro") -> t
         info["status"] = "raised:" + type(res_a).__name__
         return [], info
     out: list[tuple[str, str]] = []
+    if desc.get("matrix_equation") is not None and isinstance(res_a, (list, tuple, sympy.MatrixBase)):
+        return _judge_matrix(desc, site, res_a, args_a, si_a, info)
     if isinstance(res_a, (list, tuple)) or not isinstance(res_a, (SymQuantity, sympy.Basic, int, float)):
         info["status"] = "non-scalar-result"
         return [], info
@@ -872,7 +937,7 @@ def _shard(task: dict[str, Any]) -> Recorder:
                     sample={"function": site, "units": info.get("units"), "tier": info.get("tier")} if nt and len(rec.samples) < 3 else None)
             if returned == 0:
                 rec.notes.setdefault("uncovered_functions", []).append(site)
-            elif "residual" not in tiers:
+            elif not any(str(t).startswith("residual") for t in tiers):
                 rec.notes.setdefault("metamorphic_only_functions", []).append(site)
     return rec
 
